@@ -72,6 +72,15 @@ def usage (ds : List Node) : Report :=
     nodes := nNodes evs, maxDepth := maxDepth evs, totalScalarBytes := min (scalarBytes evs) USIZE_MAX,
     mergeKeys := mergeKeysDocs ds }
 
+/-- the independent usage count of ONE document under the per-document policy: the counts of its own events,
+`DocumentStart` through `DocumentEnd` (stream framing belongs to no document; the documents counter is not used by
+this policy and stays 0).  The same function of `d` at every position of a stream. -/
+def usageDoc (d : Node) : Report :=
+  let evs := flattenDoc d
+  { events := nEvents evs, aliases := nAliases evs, anchors := nAnchors evs, documents := 0,
+    nodes := nNodes evs, maxDepth := maxDepth evs, totalScalarBytes := min (scalarBytes evs) USIZE_MAX,
+    mergeKeys := mergeKeys d }
+
 /-- every counted quantity within its limit -/
 def within (lim : Limits) (r : Report) : Bool :=
   r.events ≤ lim.maxEvents && r.aliases ≤ lim.maxAliases && r.anchors ≤ lim.maxAnchors &&
